@@ -276,8 +276,8 @@ Definition expected_height_ok (st : state) (h : Z) : bool :=
   && (negb (st_last_height st >? 0) || (h =? st_last_height st + 1)).
 
 Definition header_wf (h : header) : bool :=
-  (h_vblock h =? block_protocol) && (hv_len (h_chain h) <=? max_chain_id_len)
-  && (0 <? h_height h) && bid_validate_basic (h_last_bid h)
+  (h_vblock h =? block_protocol) && negb (hv_len (h_chain h) >? max_chain_id_len)
+  && negb (h_height h <? 0) && negb (h_height h =? 0) && bid_validate_basic (h_last_bid h)
   && validate_hash (h_lc_hash h) && validate_hash (h_data_hash h) && validate_hash (h_ev_hash h)
   && (hv_len (h_proposer h) =? address_size)
   && validate_hash (h_vals_hash h) && validate_hash (h_nvals_hash h)
@@ -312,9 +312,9 @@ Definition specb (st : state) (b : block) : bool :=
     (* time: median of the last commit and later than the last block, or genesis time *)
     && (if h_height h >? st_initial st
         then (h_time h >? st_last_time st) && (h_time h =? median_time c (st_last_vals st))
-        else (h_height h =? st_initial st) && (h_time h =? st_last_time st))
+        else if h_height h =? st_initial st then h_time h =? st_last_time st else false)
     (* evidence within the byte limit *)
-    && (ev_byte_size (b_ev b) <=? p_ev_max_bytes (st_params st))
+    && negb (ev_byte_size (b_ev b) >? p_ev_max_bytes (st_params st))
   end.
 
 (* ------------------------------------------------------------------ building a block *)
